@@ -1,5 +1,7 @@
 """C12 — DOT export declares exactly the admitted nodes and only edges between them."""
 
+from ..model import AnalysisError
+
 from ..lint_identity import lint_program
 from . import exporter_rules as X
 from .common import typer_for
@@ -52,6 +54,8 @@ def run(ctx):
     for f in ctx.p.all_funcs:
         if f.module.relpath in FILES:
             ctx.touch(f)
+    if ctx.extra.get("undecided") and not ctx.new_findings():
+        raise AnalysisError("; ".join(ctx.extra["undecided"][:2]))
     ctx.floor("D1a", 5)
     ctx.floor("D1b", 1)
     ctx.floor("D2", 1)
